@@ -437,6 +437,27 @@ Record case := mkCase {
 
 Definition hash_of (hs : list N) (k : N) : N := nth (N.to_nat k) hs 0.
 
+(* compact input encoding used by the harness (big literals and constructor
+   terms are slow to elaborate): hashes as 16-bit halves, an operation as two
+   numbers (ver * 8192 + key code * 2 + kind, value), popCount samples as
+   triples (high half, low half, result) *)
+Fixpoint dec_pairs16 (l : list N) : list N :=
+  match l with hi :: lo :: r => (hi * 65536 + lo) :: dec_pairs16 r | _ => [] end.
+Fixpoint dec_ops (l : list N) : list (op N N) :=
+  match l with
+  | a :: v :: r =>
+    let kind := a mod 2 in
+    let kc := (a / 2) mod 4096 in
+    let ver := N.to_nat (a / 8192) in
+    let k := if kc =? 0 then None else Some (kc - 1) in
+    (if kind =? 1 then OAssoc ver k v else ODissoc ver k) :: dec_ops r
+  | _ => []
+  end.
+Fixpoint dec_pop (l : list N) : list (N * N) :=
+  match l with hi :: lo :: r :: t => (hi * 65536 + lo, r) :: dec_pop t | _ => [] end.
+Definition mkCaseC (hs ops : list N) (obs : list vobs) (late : list (nat * vobs)) (pop : list N) : case :=
+  mkCase (dec_pairs16 hs) (dec_ops ops) obs late (dec_pop pop).
+
 Definition universe (hs : list N) : list (option N) :=
   None :: map (fun i => Some (N.of_nat i)) (seq 0 (length hs)).
 
